@@ -50,7 +50,7 @@ const SEND_FORMS: &[&str] = &[
   "send", "try_send", "send_batch", "try_send_batch", "send_batch_mut", "try_send_batch_mut", "send_fut", "send_batch_fut",
 ];
 const RECV_FORMS: &[&str] = &[
-  "recv", "try_recv", "recv_timeout0", "recv_batch", "try_recv_batch", "recv_batch_mut", "try_recv_batch_mut", "recv_fut",
+  "recv", "try_recv", "recv_timeout0", "recv_timeout", "recv_batch", "try_recv_batch", "recv_batch_mut", "try_recv_batch_mut", "recv_fut",
   "recv_batch_fut",
 ];
 const BLOCKING_SEND: &[&str] = &["send", "send_batch", "send_batch_mut"];
@@ -687,7 +687,7 @@ pub fn check(case: &Case, res: &RunResult, status: &str) -> Vec<(String, String)
     for (v, (ri, sk)) in &sent_ok {
       if !recv_by.contains_key(v) {
         let s = &ops[*sk];
-        let timed = ops.iter().any(|o| o.form == "recv_timeout0" && o.res.as_deref() == Some("err:timeout") && o.call < *ri && o.ret.unwrap_or(usize::MAX) > s.call);
+        let timed = ops.iter().any(|o| (o.form == "recv_timeout0" || o.form == "recv_timeout") && o.res.as_deref() == Some("err:timeout") && o.call < *ri && o.ret.unwrap_or(usize::MAX) > s.call);
         let dropped = ops.iter().any(|o| o.form == "recv_fut" && o.cancelled.is_some() && o.call < *ri);
         let shape = if timed { ":timed-recv-cancel-race" } else if dropped { ":dropped-recv-future-race" } else { "" };
         // an abandoned run (deadlock: no teardown) may leave a manual-poll recv future that was Pending when the
